@@ -135,7 +135,10 @@ func judgeC16(c c16Case) (string, string) {
 			opts = append(opts, fscopy.WithChown(1000, 1000))
 		}
 	}
-	if err := fscopy.Copy(context.Background(), src, "/", dst, "/", opts...); err != nil {
+	if err := boundedCopy(func() error { return fscopy.Copy(context.Background(), src, "/", dst, "/", opts...) }); err != nil {
+		if err == errCopyHangs {
+			return "copy-hangs", err.Error()
+		}
 		return "copy-failed", err.Error()
 	}
 	after, err := fsmodel.Snapshot(dst)
